@@ -30,10 +30,19 @@ Theorem C08_dt_usec_exact : forall d k, 1 <= d <= 6 -> 0 <= k < 10 ^ d ->
   usec_core k d = k * 10 ^ (6 - d).
 Proof. exact usec_core_exact. Qed.
 
+Example C08_dt_ex_usec_exact : usec_core 123 3 = 123000 /\ usec_core 99999 5 = 999990.
+Proof. vm_compute. auto. Qed.
+
 Theorem C08_dt_usec_digits : forall ds,
   Forall (fun c => is_digit c = true) ds -> (1 <= length ds <= 6)%nat ->
   usec_of_frac ds = val_digits 0 ds * 10 ^ (6 - Z.of_nat (length ds)).
 Proof. exact usec_of_frac_digits. Qed.
+
+(** ".007" and ".29" *)
+Example C08_dt_ex_usec_digits :
+  forallb is_digit [48; 48; 55] = true /\ usec_of_frac [48; 48; 55] = 7000
+  /\ usec_of_frac [50; 57] = 290000.
+Proof. vm_compute. auto. Qed.
 
 Example C08_dt_ex_usec :
   usec_of_frac (zpad 6 999999) = 999999 /\ usec_of_frac (zpad 6 1) = 1
@@ -182,9 +191,25 @@ Theorem C08_dt_datetime_reader_shape : forall s,
   end.
 Proof. exact datetime_reader_shape. Qed.
 
+(** "2000-02-29 01:02:03.123456789Z": space separator, nine fraction digits (rounded
+    by the float computation), Z: outside the restricted XSD space, still read *)
+Example C08_dt_ex_datetime_reader_shape :
+  let s := [50; 48; 48; 48; 45; 48; 50; 45; 50; 57; 32; 48; 49; 58; 48; 50; 58; 48; 51; 46;
+            49; 50; 51; 52; 53; 54; 55; 56; 57; 90] in
+  let v := mkdt (mkdate 2000 2 29) (mktod 1 2 3 123457) (Some 0) in
+  dt_fields s = Some v /\ valid_datetime v = true /\ datetime_from_unicode_iso s = Ok v
+  /\ xs_dateTime s = None.
+Proof. vm_compute. auto. Qed.
+
 Theorem C08_dt_datetime_only_valueerror : forall s e,
   datetime_from_unicode_iso s = Crash e -> e = ValueError.
 Proof. exact datetime_only_valueerror. Qed.
+
+(** 1999-12-31T23:59:60Z: a leap second is a ValueError, not a ValidationError *)
+Example C08_dt_ex_datetime_only_valueerror :
+  datetime_from_unicode_iso [49; 57; 57; 57; 45; 49; 50; 45; 51; 49; 84; 50; 51; 58; 53; 57;
+                             58; 54; 48; 90] = Crash ValueError.
+Proof. vm_compute. auto. Qed.
 
 Theorem C08_dt_datetime_crash_iff : forall s,
   datetime_from_unicode_iso s = Crash ValueError <->
@@ -208,6 +233,11 @@ Proof. vm_compute. repeat split; reflexivity. Qed.
 Theorem C08_dt_time_only_valueerror : forall s e, time_from_unicode s = Crash e -> e = ValueError.
 Proof. exact time_only_valueerror. Qed.
 
+(** 24:00:00 *)
+Example C08_dt_ex_time_only_valueerror :
+  time_from_unicode [50; 52; 58; 48; 48; 58; 48; 48] = Crash ValueError.
+Proof. vm_compute. auto. Qed.
+
 Theorem C08_dt_time_crash_iff : forall s,
   time_from_unicode s = Crash ValueError <->
   exists h m x f rest, scan_time s = Some (h, m, x, f, rest)
@@ -222,6 +252,11 @@ Proof. vm_compute. auto. Qed.
 
 Theorem C08_dt_date_only_valueerror : forall s e, date_from_unicode s = Crash e -> e = ValueError.
 Proof. exact date_only_valueerror. Qed.
+
+(** 2020-00-10Z *)
+Example C08_dt_ex_date_only_valueerror :
+  date_from_unicode [50; 48; 50; 48; 45; 48; 48; 45; 49; 48; 90] = Crash ValueError.
+Proof. vm_compute. auto. Qed.
 
 Theorem C08_dt_date_crash_iff : forall s,
   date_from_unicode s = Crash ValueError <->
